@@ -167,6 +167,34 @@ fn canon_cfg(blocks: &[Vec<Raw>]) -> String {
     out
 }
 
+/// Rename temporaries `tN` by order of first occurrence in the canonical text.
+fn rename_tmps(text: &str) -> String {
+    let mut map: std::collections::HashMap<String, usize> = std::collections::HashMap::new();
+    let mut out = String::new();
+    let bytes: Vec<char> = text.chars().collect();
+    let mut i = 0;
+    while i < bytes.len() {
+        let c = bytes[i];
+        let boundary = i == 0 || !(bytes[i - 1].is_alphanumeric() || bytes[i - 1] == '_');
+        if c == 't' && boundary && i + 1 < bytes.len() && bytes[i + 1].is_ascii_digit() {
+            let mut j = i + 1;
+            while j < bytes.len() && bytes[j].is_ascii_digit() {
+                j += 1;
+            }
+            let name: String = bytes[i..j].iter().collect();
+            let n = map.len();
+            let id = *map.entry(name).or_insert(n);
+            out.push_str(&format!("T{id}"));
+            i = j;
+        } else {
+            out.push(c);
+            i += 1;
+        }
+    }
+    out
+}
+
+
 /// Compare the composed model's structured MIR with the real MIR of every function of a program
 /// of the fragment whose variables are named by level (`ast::rename_levels`).
 /// Returns the number of functions compared and found equal.
@@ -213,10 +241,12 @@ pub fn compare_mir(rep: &mut Report, drv: &mut Driver, src: &str, sx: &str, fn_n
             rep.mismatch("the MIR dump has no item for a function of the program", json!({"case": ident, "src": src, "function": name}));
             continue;
         };
-        let (mc, rc) = (canon_cfg(&model.1), canon_cfg(rblocks));
-        if mc != rc || model.0 != *rtmp {
+        // temporaries are compared up to a renaming by first occurrence in the canonical text: the
+        // number a temporary gets has no meaning, the order in which values are computed has
+        let (mc, rc) = (rename_tmps(&canon_cfg(&model.1)), rename_tmps(&canon_cfg(rblocks)));
+        if mc != rc {
             rep.mismatch(
-                "T5 tie: the structured MIR of the composed model (resolve, then LowerS.lowerFn) and the real MIR of a function differ (instructions, order, temporaries or control flow; drops and unit constants ignored)",
+                "T5 tie: the structured MIR of the composed model (resolve, then LowerS.lowerFn) and the real MIR of a function differ (instructions, their order, operands or control flow; drops, unit constants and the numbering of temporaries ignored)",
                 json!({"case": ident, "src": src, "function": name, "model_tmp_idx": model.0, "real_tmp_idx": rtmp, "model": mc, "real": rc}),
             );
             rep.hist("t5-mir-model-vs-real", "DIFFERENT");
